@@ -6,6 +6,7 @@ cd "$(dirname "$0")/.."
 mkdir -p .work/ev-harmless && cp evidence/*.json .work/ev-harmless/
 for h in seeded/${HARMLESS_DIR:-harmless}/h*.diff; do
   name=$(basename "$h" .diff)
+  if [ -n "${HARMLESS_ONLY:-}" ] && ! echo " $HARMLESS_ONLY " | grep -q " $name "; then continue; fi
   if [ -n "$(git -C /repo status --porcelain)" ]; then echo "refusing: /repo dirty"; exit 2; fi
   git -C /repo apply "$(pwd)/$h" || { echo "$name: does not apply"; continue; }
   for P in C01 C02 C03 C04 C05 C06 C07 C08 C09 C10 C11 C12 C13 C14 C15 C16 C17 C18; do
